@@ -42,6 +42,18 @@ func execOp(f []string) string {
 		if len(f) != 3 {
 			return "bad-op"
 		}
+		b01 := func(x bool) int {
+			if x {
+				return 1
+			}
+			return 0
+		}
+		switch f[1] { // the two classes that live on spellings
+		case "maven-spelling":
+			return fmt.Sprintf("ok z=%d", b01(zeroRun(fw.Unhx(f[2]))))
+		case "pypi-spelling":
+			return fmt.Sprintf("ok u=%d", b01(upperEarly(fw.Unhx(f[2]))))
+		}
 		a, ok := decode(f[1], f[2])
 		if !ok {
 			return "bad-op"
@@ -65,6 +77,7 @@ var findingOf = map[string]string{
 	"maven:finalsnapshot": "F-C02-mvn-final-snapshot",
 	"maven:zerosnapshot":  "F-C02-mvn-zero-snapshot",
 	"maven:dotunknown":    "F-C02-mvn-dot-unknown",
+	"maven:zerodot":       "F-C02-mvn-zero-dot",
 	"gem:upper":          "F-C02-gem-case",
 }
 
@@ -115,6 +128,28 @@ func upperEarly(s string) bool {
 	return false
 }
 
+// zeroRun: a numeric component that is zero and spelled with more than one digit ("00").
+func zeroRun(s string) bool {
+	for i := 0; i < len(s); {
+		if s[i] < '0' || s[i] > '9' {
+			i++
+			continue
+		}
+		j, allZero := i, true
+		for j < len(s) && s[j] >= '0' && s[j] <= '9' {
+			if s[j] != '0' {
+				allZero = false
+			}
+			j++
+		}
+		if allZero && j-i >= 2 {
+			return true
+		}
+		i = j
+	}
+	return false
+}
+
 func classify(oracle string, ops, res []string) string {
 	switch oracle {
 	case "agree":
@@ -123,6 +158,10 @@ func classify(oracle string, ops, res []string) string {
 			return ""
 		}
 		eco := f[2]
+		if g := strings.Fields(ops[len(ops)-2]); eco == "maven" && len(g) == 5 && g[1] == "cmp" &&
+			(zeroRun(fw.Unhx(g[3])) || zeroRun(fw.Unhx(g[4]))) {
+			return "F-C02-mvn-leading-zero"
+		}
 		for _, w := range f[3:] {
 			t, ok := decode(eco, w)
 			if !ok {
@@ -152,7 +191,7 @@ type entry struct {
 }
 
 func run(c *fw.Ctx) {
-	per := c.N(90, 340)
+	per := c.N(280, 650)
 	pools := map[string][]entry{}
 	for _, eco := range ecos {
 		sys := ecoSys[eco]
@@ -189,6 +228,9 @@ func run(c *fw.Ctx) {
 				}
 				seenStr[s] = true
 				k, r := c.Opf("C02 parse %s %s", sys, fw.Hx(s))
+				if eco == "pypi" || eco == "maven" {
+					c.Opf("C02 classify %s-spelling %s", eco, fw.Hx(s))
+				}
 				if !okRes(r) {
 					if !normal {
 						c.Check("accepts-spelling", k)
@@ -211,11 +253,21 @@ func run(c *fw.Ctx) {
 		// small-scope exhaustive stream (all of it in the thorough tier up to a cap, a sample otherwise)
 		ex := exhTrees(eco)
 		c.Rng.Shuffle(len(ex), func(i, j int) { ex[i], ex[j] = ex[j], ex[i] })
+		var exIn, exOut []tree // inside / outside the hypotheses of the partial theorem, drawn alternately
 		for _, t := range ex {
-			if len(pool) >= per/2 {
-				break
+			if len(t.cls()) == 0 {
+				exIn = append(exIn, t)
+			} else {
+				exOut = append(exOut, t)
 			}
-			addTree(t)
+		}
+		for i := 0; (i < len(exIn) || i < len(exOut)) && len(pool) < per/2; i++ {
+			if i < len(exIn) {
+				addTree(exIn[i])
+			}
+			if i < len(exOut) && i%2 == 0 {
+				addTree(exOut[i])
+			}
 		}
 		for tries := 0; len(pool) < per && tries < per*30; tries++ {
 			addTree(genTree(c.Rng, eco))
@@ -246,6 +298,35 @@ func run(c *fw.Ctx) {
 				}
 				if a.wire != b.wire {
 					c.Nontrivial(eco + "|" + a.wire + "|" + b.wire)
+				}
+			}
+		}
+		// Maven: spellings with leading zeros on the numbers (same tree for ComparableVersion) against the pool
+		if eco == "maven" && n > 0 {
+			for t := 0; t < c.N(30, 150); t++ {
+				e := pool[c.Rng.Intn(n)]
+				s := e.t.(mvnTree).altZ(c.Rng, true)
+				if s == e.str {
+					continue
+				}
+				pk, pr := c.Opf("C02 parse %s %s", sys, fw.Hx(s))
+				c.Opf("C02 classify maven-spelling %s", fw.Hx(s))
+				if !okRes(pr) {
+					c.Check("accepts-spelling", pk)
+					continue
+				}
+				c.Count("maven:leading-zero-spelling")
+				for u := 0; u < 12; u++ {
+					o := pool[c.Rng.Intn(n)]
+					if u == 0 {
+						o = e // the same tree: the two spellings must compare equal
+					}
+					ci, cr := c.Opf("C02 cmp %s %s %s", sys, fw.Hx(s), fw.Hx(o.str))
+					ri, rr := c.Opf("C02 refcmp %s %s %s", eco, e.wire, o.wire)
+					total++
+					if cr != rr {
+						c.Check("agree", pk, o.pidx, ci, ri)
+					}
 				}
 			}
 		}
